@@ -191,6 +191,10 @@ def geom_call(st, rng):
     lower, upper = box_for(rng, xbase, st["pos"], Delta)
     g = grad_for(rng, st["sgn"], 10.0 ** rng.uniform(-2, 2) / Delta)
     c = float(rng.choice([0.0, 1.0, -1.0, rng.normal()]))
+    if rng.random() < 0.3:
+        # tiny but non-negligible gradients (components >= 1e-10, far above the code's 1e-14 zero threshold) with a constant term of the same size
+        g = grad_for(rng, st["sgn"], 10.0 ** rng.uniform(-9.0, -6.5))
+        c = float(rng.choice([0.0, 1.0, -1.0])) * float(np.linalg.norm(g)) * Delta * float(rng.choice([0.0, 0.5, 2.0]))
     with warnings.catch_warnings(), np.errstate(all="ignore"):
         warnings.simplefilter("ignore")
         x = trsbox_geometry(xbase.copy(), c, g.copy(), lower.copy(), upper.copy(), Delta, use_fortran=False)
